@@ -138,10 +138,10 @@ static MPT_STRUCT(buffer) *_mpt_buffer_alloc_detach(MPT_STRUCT(buffer) *ptr, siz
 		size_t add = buf->buf._used;
 		if (add > len) {
 			void (*fini)(void *);
-			if (!traits) {
+			if (!traits || !(fini = traits->fini)) {
 				add = len;
 			}
-			else if ((fini = traits->fini)) {
+			else {
 				uint8_t *ptr = (void *) (buf + 1);
 				size_t pos, esize = traits->size;
 				/* align used data */
